@@ -904,6 +904,88 @@ impl G {
     /// three to five identifiers or-ed together, each one string predicate on the SAME field, drawn
     /// from a pool of two words and three kinds: the optimiser merges them into one batch in which
     /// needles repeat
+    /// SEVERAL PREDICATES ON ONE FIELD written as separate entries (a sequence of one-key mappings, or-ed
+    /// identifiers, and-ed identifiers with a neighbour on another field), each a single pattern or a short
+    /// list, kinds mixed (contains / prefix / suffix / exact) over a small word pool.  The documents bring,
+    /// per member, a value that only a pattern of that kind on that word matches, values holding an anchored
+    /// word away from its anchor, and ARRAYS whose elements satisfy different members separately - what the
+    /// optimiser's same-field merging (shake) must keep apart: order of kinds, automata built by the parser,
+    /// any-element versus one-element semantics.
+    pub fn same_field_source(&mut self) -> J {
+        let words = ["cmd", "ps", "ws", "run"];
+        let kinds = ["contains", "prefix", "suffix", "exact"];
+        let n = 3 + self.r.below(3);
+        let ic = self.r.chance(1, 5);
+        let mut entries: Vec<J> = vec![];
+        let mut pats: Vec<(&str, &str)> = vec![];
+        for _ in 0..n {
+            let m = if self.r.chance(1, 3) { 2 + self.r.below(2) } else { 1 };
+            let mut vs = vec![];
+            for _ in 0..m {
+                let k = *self.r.pick(&kinds[..]);
+                let w = *self.r.pick(&words[..]);
+                pats.push((k, w));
+                vs.push(json!({"t":"pat","k":k,"ic":ic,"a":cps(w)}));
+            }
+            entries.push(if m == 1 { vs.pop().unwrap() } else { json!({"t":"list","vs":vs}) });
+        }
+        let form = self.r.below(4);
+        let ent = |f: &str, v: &J| json!({"m":"none","c":0,"f":cps(f),"v":v});
+        let mut ids = vec![];
+        let cond;
+        if form == 0 {
+            let ms: Vec<J> = entries.iter().map(|v| json!({"t":"map","es":[ent("f", v)]})).collect();
+            ids.push(json!([cps("A"), {"t":"seq","ms":ms}]));
+            cond = json!({"t":"id","n":cps("A")});
+        } else {
+            let other = json!({"t":"pat","k":"exact","ic":false,"a":cps("x")});
+            let at = self.r.below(n + 1);
+            let mut names = vec![];
+            for (i, v) in entries.iter().enumerate() {
+                if form >= 2 && i == at {
+                    names.push(IDENTS[n].to_string());
+                    ids.push(json!([cps(IDENTS[n]), {"t":"map","es":[ent("g", &other)]}]));
+                }
+                names.push(IDENTS[i].to_string());
+                ids.push(json!([cps(IDENTS[i]), {"t":"map","es":[ent("f", v)]}]));
+            }
+            if form >= 2 && at == n {
+                names.push(IDENTS[n].to_string());
+                ids.push(json!([cps(IDENTS[n]), {"t":"map","es":[ent("g", &other)]}]));
+            }
+            let op = if form == 1 || form == 2 { "or" } else { "and" };
+            cond = names.iter().map(|x| json!({"t":"id","n":cps(x)})).reduce(|l, r| json!({"t":op,"l":l,"r":r})).unwrap();
+        }
+        let val = |k: &str, w: &str| -> String {
+            match k { "contains" => format!("zz {} zz", w), "prefix" => format!("{} zz", w), "suffix" => format!("zz {}", w), _ => w.to_string() }
+        };
+        let s = |x: &str| json!({"t":"S","s":cps(x)});
+        let mk = |fv: J, g: bool| { let mut kv = vec![json!([cps("f"), fv])]; if g { kv.push(json!([cps("g"), {"t":"S","s":cps("x")}])); } json!({"t":"O","kv":kv}) };
+        let mut docs = vec![];
+        let gx = form >= 2;
+        for (i, (k, w)) in pats.iter().enumerate() {
+            if i < 6 { docs.push(mk(s(&val(k, w)), gx || self.r.chance(1, 2))); }
+        }
+        // an anchored word AWAY from its anchor (a batch must keep each member's kind)
+        for (i, (k, w)) in pats.iter().enumerate() {
+            if i < 4 && *k != "contains" {
+                let v = match *k { "prefix" => format!("zz {}", w), "suffix" => format!("{} zz", w), _ => format!("zz {} zz", w) };
+                docs.push(mk(s(&v), true));
+            }
+        }
+        // arrays: two members' values in separate elements; all members' values; one element holding two words
+        if pats.len() >= 2 {
+            let (a, b) = (pats[0], pats[pats.len() - 1]);
+            docs.push(mk(json!({"t":"A","vs":[s(&val(a.0, a.1)), s(&val(b.0, b.1))]}), true));
+            docs.push(mk(json!({"t":"A","vs":pats.iter().take(5).map(|(k, w)| s(&val(k, w))).collect::<Vec<J>>()}), true));
+            docs.push(mk(s(&format!("{} {}", a.1, b.1)), true));
+        }
+        docs.push(mk(s("zzzz"), true));
+        docs.push(json!({"t":"O","kv":[[cps("g"), {"t":"S","s":cps("x")}]]}));
+        self.own_docs = Some(docs);
+        json!({"cond":cond,"ids":ids})
+    }
+
     pub fn repeat_needle_source(&mut self) -> J {
         let n = 3 + self.r.below(3);
         let words = ["ab", "Ba"];
@@ -2245,7 +2327,7 @@ pub fn gen_cases(topic: &str, seed: u64, n: usize, path: &str) -> Result<(), Str
         let mut g = G::new(seed ^ 0x6B65);
         let mut w = BufWriter::new(File::create(path).map_err(|e| e.to_string())?);
         let words = ["a", "Image", "Path", "b1", "a.b", "tags[0]", "a.b[1].c", "x_y", "n#1", "and", "or", "not", "all", "of", "int",
-                     "order", "android", "nothing", "offline", "allow", "integer", "string", "é", "ß", "K", "_id", "1st", "e-mail", "a,b"];
+                     "order", "android", "nothing", "offline", "allow", "integer", "string", "é", "ß", "K", "_id", "1st", "e-mail", "a,b", "03", "1.10", "2.0", "007", "3", "0x10", "1e3", "-4"];
         let seps = [" ", " ", " ", "  ", "\t", "\n", " \t ", "\u{b}", "\u{c}", "\r", "\u{a0}", ""];
         let mods = ["int(", "flt(", "str(", "not(", "all(", "of(", "string(", "int (", "all (", "of (", "not ", "INT(", "Int(", "("];
         for _ in 0..n {
@@ -2313,10 +2395,10 @@ pub fn gen_cases(topic: &str, seed: u64, n: usize, path: &str) -> Result<(), Str
     for _ in 0..n {
         let mode = g.r.below(10);
         g.positive = matches!(topic, "opt" | "perm") && mode < 4;
-        let shape = if topic == "nm" { 2 } else if matches!(topic, "opt" | "adv" | "pure" | "find" | "lang" | "perm") { g.r.below(8) } else { 9 };
-        let topic = if topic == "nm" { "opt" } else { topic };
+        let shape = if topic == "nm" { 2 } else if topic == "samef" { 10 } else if matches!(topic, "opt" | "adv" | "pure" | "find" | "lang" | "perm") { g.r.below(8) } else { 9 };
+        let topic = if topic == "nm" || topic == "samef" { "opt" } else { topic };
         g.own_docs = None;
-        let src = match shape { 0 | 1 => g.matrix_source(), 2 => g.nested_merge_source(),
+        let src = match shape { 10 => g.same_field_source(), 0 | 1 => g.matrix_source(), 2 => g.nested_merge_source(),
                                 5 if matches!(topic, "opt" | "lang" | "adv") => g.flag_mix_source(),
                                 6 | 7 if topic == "adv" => g.flag_mix_source(),
                                 3 if matches!(topic, "pure" | "opt" | "find") => g.deep_nested_source(),
